@@ -430,6 +430,7 @@ def r04_6(ctx: Ctx):
                 ctx.fail(rid, f.short if f else caller, f.loc() if f else '',
                          f'{sq.split(":")[1]} is called outside the evaluation routine: the recorded value of a trial '
                          f'can change after it was evaluated', key=f'{rid}::{caller}::calls::{sq.split(":")[1]}')
+    r04_8(ctx)
     # the local refinement rewrites point and value together
     ex = ctx.explorer()
     n2 = 0
@@ -463,7 +464,48 @@ def r04_6(ctx: Ctx):
                   'the refinement stores the objective at the very point it stores, for the same trial',
                   'the local refinement does not rewrite point and value coherently (value must be the objective '
                   'at the stored point of the same trial)', key=f'{rid}::{rf.short}::coherent-rewrite')
-    ctx.floor(rid, 'rewriting paths of the local refinement', n2, 1)
+    ctx.floor(rid, 'rewriting paths of the local refinement', n2, 1, explained_by=('R04.8',))
+
+
+def r04_8(ctx: Ctx):
+    """The record (Method.best) and the published optimum (the best-trial slot of the Solution) are two names of
+    one object, kept so by the optimum updater (R04.3).  Whoever else stores into the slot publishes something the
+    record does not know: the next update compares against the old record and overwrites the slot with a worse
+    trial (or the slot keeps a trial that was never the record)."""
+    rid = 'R04.8'
+    ctx.rule(rid, 'who may publish: outside constructors only the optimum updater stores into the best-trial slot of '
+                  'the Solution (element store or re-binding of the list); improvements found elsewhere are written '
+                  'into the published trial itself (R04.6)')
+    roles = C.roles_of(ctx)
+    try:
+        up = roles.optimum_updater
+    except RoleMissing as e:
+        ctx.fail(rid, f'role {e.role}', 'iOpt/', str(e), key=f'{rid}::role::{e.role}')
+        return
+    sol = ctx.ix.cls('Solution')
+    slots = set()
+    for o in ctx.pta._objs.values():
+        if o.cls is not None and o.cls.is_subclass_of(sol) and o.kind in ('inst', 'ext_inst'):
+            slots |= {x for x in ctx.pta.read_field(o, 'bestTrials') if x.kind in ('list', 'ndarray', 'tuple')}
+    n = 0
+    for m in roles.mutations():
+        if m.init_self or not m.func.module.name.startswith('iOpt.'):
+            continue
+        hit = False
+        if m.kind in ('attr', 'aug') and m.field == 'bestTrials':
+            hit = any(o.cls is not None and o.cls.is_subclass_of(sol) for o in m.bases)
+        elif m.kind in ('sub', 'mutcall', 'del', 'inplace', 'aug') and set(m.bases) & slots:
+            hit = True
+        if not hit:
+            continue
+        n += 1
+        ctx.check(roles.lift(m.func) is up, rid, m.func.short, m.loc(),
+                  f'the best-trial slot is written by the optimum updater: {m.text()[:60]}',
+                  f'{m.func.short} stores into the best-trial slot of the Solution ({m.text()[:70]}) although it is '
+                  f'not the optimum updater: the record Method.best does not follow, so the next update of the '
+                  f'optimum compares against the old record and replaces the published trial by a worse one',
+                  key=ctx.key_for(rid, m.func, m.node))
+    ctx.floor(rid, 'stores into the best-trial slot outside constructors', n, 1)
 
 
 def r04_7(ctx: Ctx):
